@@ -420,6 +420,10 @@ func (m *Mux) GetHandler(rname string) *Match {
 				return nil
 			}
 			subrname = rname[pl+1:]
+			// The path followed by nothing but a separator is not the path
+			if len(subrname) == 0 {
+				return nil
+			}
 		}
 	}
 
